@@ -213,6 +213,33 @@ def strlit(name):
     return '"%s"@' % name
 
 
+def evo_terms(steps):
+    t = []
+    for kind, name in steps:
+        t.append({'InitialVersion': 'Evo::Initial', 'FieldAdded': 'Evo::Added { name: %s }', 'FieldMadeOptional': 'Evo::MadeOptional { name: %s }',
+                  'FieldRemoved': 'Evo::Removed { name: %s }', 'FieldMadeTransient': 'Evo::MadeTransient { name: %s }'}[kind].replace('%s', strlit(name) if name else ''))
+    return t
+
+
+def gen_steps_check(owner, static, steps, declared):
+    """the steps the expansion registers in its metadata static must be the declaration's
+    #[evolution(..)] list (after the implicit initial version) -- the specs are generated from the
+    former, so this obligation is what ties them to the declaration"""
+    want = [('InitialVersion', None)] + [(st['kind'], st['name']) for st in declared]
+    for kind, _ in want:
+        if kind not in ('InitialVersion', 'FieldAdded', 'FieldMadeOptional', 'FieldRemoved', 'FieldMadeTransient'):
+            raise Unsupported('evolution step ' + kind)
+    return '''
+//#fn id=catalogue::%(owner)s::metadata_steps tags=C02,C03,C14,C13 mode=lemma
+pub proof fn lemma_metadata_steps_%(static)s()
+    ensures
+        // registered by the expansion == declared
+        seq![%(have)s] =~= seq![%(want)s],
+{
+}
+''' % dict(owner=owner, static=static, have=', '.join(evo_terms(steps)), want=', '.join(evo_terms(want)))
+
+
 def gen_metadata(static, steps):
     """constant + Deref whose ensures is the ASSUMED contract of AdtMetadata::new on these steps"""
     n = len(steps)
@@ -412,18 +439,27 @@ def generate(repo, build_dir, lib_unit_path, out_path):
         try:
             if d['kind'] == 'struct' and not d['evolution']:
                 txt, nl = gen_struct_v0(d, expanded)
+                txt += gen_steps_check(name, ('%s_metadata' % name).upper(), metadata_steps(expanded, ('%s_metadata' % name).upper()), d['evolution'])
                 parts.append('// ================= catalogue entry %s (struct, version 0)\n' % name + txt)
                 lits |= set(nl)
-            elif d['kind'] == 'enum' and not d['evolution'] and not any(v['evolution'] for v in d['variants']):
+            elif d['kind'] == 'enum':
                 import catgen_enum
-                H = dict(gen_metadata=gen_metadata, metadata_steps=metadata_steps, live=live, norm_paths=norm_paths, impl_fn=impl_fn)
+                H = dict(gen_metadata=gen_metadata, metadata_steps=metadata_steps, live=live, norm_paths=norm_paths, impl_fn=impl_fn, strlit=strlit)
                 txt, nl = catgen_enum.gen_enum_v0(d, expanded, H)
+                txt += gen_steps_check(name, ('%s_metadata' % name).upper(), metadata_steps(expanded, ('%s_metadata' % name).upper()), d['evolution'])
+                for v in d['variants']:
+                    cs = ('%s_%s_metadata' % (name, v['name'])).upper()
+                    try:
+                        txt += gen_steps_check('%s::%s' % (name, v['name']), cs, metadata_steps(expanded, cs), v['evolution'])
+                    except rx.Lost:
+                        pass
                 parts.append('// ================= catalogue entry %s (enum, version-0 cases)\n' % name + txt)
                 lits |= set(nl)
             elif d['kind'] == 'struct' and d['evolution']:
                 import catgen_evolved
                 H = dict(gen_metadata=gen_metadata, metadata_steps=metadata_steps, live=live, norm_paths=norm_paths, impl_fn=impl_fn, strlit=strlit)
                 txt, nl = catgen_evolved.gen_struct_evolved(d, expanded, H)
+                txt += gen_steps_check(name, ('%s_metadata' % name).upper(), metadata_steps(expanded, ('%s_metadata' % name).upper()), d['evolution'])
                 parts.append('// ================= catalogue entry %s (struct with evolution steps)\n' % name + txt)
                 lits |= set(nl)
             else:
